@@ -54,7 +54,17 @@ for pid in sorted(P):
         'engine': 'lean4-proof+correspondence',
         'level_claimed': {'category': 'proof', 'text': text, 'design_ref': 'DESIGN.md section ' + ref},
         'level_note': COMMON_NOTE + note,
-        'technique': 'Lean 4 theorems over a hand-written model (lean/HpackVerif/Props/%s.lean), data regenerated from the source by a translator, logic tied by differential correspondence; judges on the real code find the failing input' % pid,
+        'technique': 'Lean 4 theorems over a hand-written model (lean/HpackVerif/Props/%s.lean), data regenerated from the source by a translator, logic tied by differential correspondence%s; judges on the real code find the failing input' % (
+            pid, {'C11': ' and, for encode_integer/decode_integer, by a source-to-Lean translation proved equal to the model (Props.Src)',
+                  'C02': ' and, for the integer steps, by a source-to-Lean translation proved equal to the model (Props.Src)',
+                  'C04': ' and, for decode_integer, by a source-to-Lean translation proved equal to the model (Props.Src)',
+                  'C05': ' and, for decode_integer, by a source-to-Lean translation proved equal to the model (Props.Src)',
+                  'C16': ' and, for decode_integer and its cap, by a source-to-Lean translation proved equal to the model (Props.Src)',
+                  'C06': ' and, for HeaderTable.add/_shrink/maxsize, by a source-to-Lean translation proved equal to the model (Props.SrcTable)',
+                  'C14': ' and, for HeaderTable.get_by_index, by a source-to-Lean translation proved equal to the model (Props.SrcTable)',
+                  'C08': ' and, for the table setter, by a source-to-Lean translation proved equal to the model (Props.SrcTable)',
+                  'C10': ' and, for the table operations, by a source-to-Lean translation proved equal to the model (Props.SrcTable)',
+                  'C19': ' and, for the table operations, by a source-to-Lean translation proved equal to the model (Props.SrcTable)'}.get(pid, '')),
     })
 m = {
     'version': 1,
@@ -67,7 +77,7 @@ m = {
         'add_only': True,
     },
     'engines': [{'name': 'lean4-proof+correspondence', 'path': 'check', 'serves_properties': sorted(P),
-                 'kind_free_text': 'Lean 4 kernel-checked theorems about a model of the code; translator (data) + line-protocol correspondence (logic) tie the model to /repo on every run'}],
+                 'kind_free_text': 'Lean 4 kernel-checked theorems about a model of the code; translator (data; and source text -> Lean for the integer codec and HeaderTable, proved equal to the model) + line-protocol correspondence (logic) tie the model to /repo on every run'}],
     'checks': checks,
     'not_applicable': [],
     'notes': 'Genuine defects D1-D4 were repaired by fix: commits in /repo (known_findings.json, fixed entries); D5 (C09) is a known finding. See DESIGN.md.',
